@@ -64,7 +64,12 @@ func buildTvDag(kids map[string][]string, order []string) *tvDag {
 		var b []byte
 		codec := uint64(cid.DagCBOR)
 		if len(kids[n]) == 0 && i%2 == 1 {
-			b = []byte("raw leaf " + n)
+			// raw leaves sized so that CID (36 bytes) + data sits on a varint boundary: 128 and 16384
+			size := 92
+			if i == 1 {
+				size = 16348
+			}
+			b = detBytes("raw leaf "+n, size)
 			codec = cid.Raw
 		} else {
 			b = cborHead(4, uint64(1+len(kids[n])))
